@@ -24,9 +24,14 @@ def run(ctx):
     ctx.validate("WireTrace", t1, wirefam.keyfn, describe=wirefam.describe, only=["Inv_C02_", "Unconsumable"],
                  timeout=3000, require_events=2 * len(stims))
     t2 = ctx.path("gen.ndjson")
-    ctx.driver(drv, ["-out", t2, "-gen", 1500 if ctx.quick else 20000, "-big", 30 if ctx.quick else 120])
+    o2 = ctx.path("gen-own.ndjson")
+    ctx.driver(drv, ["-out", t2, "-gen", 1500 if ctx.quick else 20000, "-big", 30 if ctx.quick else 120,
+                     "-mal", 1500 if ctx.quick else 10000, "-own", o2])
     ctx.validate("WireTrace", t2, wirefam.keyfn, describe=wirefam.describe, only=["Inv_C02_", "Unconsumable"],
                  timeout=3000, require_events=1500)
+    # rejected messages in between: what the decoder releases on its error paths decides whether two later
+    # messages share a buffer
+    wirefam.check_pool(ctx, o2, "generated and mutated messages")
     ctx.extra["tlc_messages_replayed"] = len(stims)
     ctx.assumptions += [
         "the specification's decoder is an independent implementation written from RFC 1035 with the proxy's limits; the reserved Z header bit is not a header field",
